@@ -924,6 +924,7 @@ start_function (GMarkupParseContext *context,
       break;
     case STATE_CLASS_FIELD:
     case STATE_STRUCT_FIELD:
+    case STATE_UNION_FIELD:
       found = (found || strcmp (element_name, "callback") == 0);
       in_embedded_state = ctx->state;
       break;
